@@ -221,4 +221,18 @@ PROPS = {
         "trusted_base": ["as C07: the eliminant property of the Sylvester determinant is classical, not formalised"],
         "assumptions": ["operands with deg f + deg g <= 7; undefined infinite combinations (inf-inf, 0*inf, inf/inf, x^0) are not generated"],
     },
+    "C09": {
+        "level": "proof",
+        "lean_targets": ["LP.Props.C09"],
+        "harnesses": [{"name": "h_hist", "quick": 150, "thorough": 3000}],
+        "select": lambda t: t[1] in ("hist", "val"),
+        "nontrivial": lambda t, r: True,
+        "rule": "histories of 25-50 public calls over a pool of values (irrational algebraic numbers incl. conjugates, rationals hidden in "
+                "reducible quadratics, rationals as algebraic / rational values), copies taken and destroyed at random times, and three "
+                "values stored in an assignment: cmp, cmp_rational, sgn, floor, hash_approx, to_double, add, mul, refine_const, "
+                "get_value_between, polynomial sgn / evaluate / roots_isolate / constraint feasible set under the assignment. After every "
+                "call every tracked object whose raw state changed is dumped and compared with its creation-time representation.",
+        "trusted_base": ["the harness reads struct lp_algebraic_number_struct fields directly (f, I, sgn_at_a, sgn_at_b)"],
+        "assumptions": [],
+    },
 }
